@@ -231,7 +231,7 @@ Proof.
   pose proof (umod_range w v ltac:(lia)) as Hr. set (x := umod w v) in *. clearbody x.
   rewrite ?land_pow2 by lia. rewrite ?testbit_high by lia. unfold sgn.
   pose proof (pow2_pos (w - 1) ltac:(lia)).
-  cmp_cases; fin.
+  destruct (Z.leb_spec (2 ^ (w - 1)) x); cmp_cases; fin.
 Qed.
 
 Lemma c2_to_signed_sgn v w : 1 <= w -> 0 <= v < 2 ^ w -> IntegerHelper_c2_to_signed v w = sgn w v.
